@@ -129,6 +129,14 @@ H('C18', 'Every dependency graph over 3 (quick) / 4 (thorough) formula columns x
          'edit and after a from-scratch reload.',
   tech='exhaustive enumeration of all dependency graphs on the real engine; graph-theoretic oracle')
 
+H('C29', 'Every state up to depth 1/2 of three worlds (lookups, summary tables with side-effecting '
+         'helper formulas, trigger formulas) x every read-only API call with its argument menu: the '
+         'dump is unchanged after each call and a following Calculate emits nothing.')
+H('C30', 'All histories up to the depth executed in 4/16 separate processes with different '
+         'PYTHONHASHSEED (and different exploration order): SHA-256 of every reply and of the final '
+         'dump must agree across processes.',
+  tech='explicit-state history exploration repeated in separate processes (hash seed / process-history differential)')
+
 PLANNED = {}
 
 
